@@ -78,6 +78,8 @@ def sampler_configs(draw, classes=CLASSES, max_d=4, target_kinds=("gauss", "gaus
             for i in range(d):
                 lim.append(draw(st.sampled_from(["none", "none", "bounded", "nonneg"])))
         cfg["limits"] = lim
+        # the documented default proposal widths (5% of the start values) instead of explicit ones
+        cfg["default_widths"] = draw(st.sampled_from([False, False, False, False, True]))
         cfg["limit_half"] = [10 ** draw(st.floats(-0.7, 1.0)) for _ in range(d)]
     return cfg
 
@@ -161,7 +163,7 @@ def build(cfg, target=None, record=True):
         warnings.simplefilter("ignore")
         if cls in ("gibbs", "metropolis"):
             C = GibbsChain if cls == "gibbs" else MetropolisChain
-            ch = C(posterior=tgt, start=start, widths=widths, temperature=cfg["T"], **kw)
+            ch = C(posterior=tgt, start=start, widths=None if cfg.get("default_widths") else widths, temperature=cfg["T"], **kw)
             for i, kind in enumerate(cfg.get("limits", [])):
                 if kind == "bounded":
                     ch.set_boundaries(i, gibbs_interval(cfg, i))
